@@ -53,7 +53,8 @@ Check (C02_whole_message_parsed : forall msg nq an ns ar (qs : list squestion) (
   lenN qs = nq -> lenN rs = an + ns + ar -> nq <= 65535 -> an <= 65535 -> ns <= 65535 -> ar <= 65535 ->
   exists qends rends,
     parsed msg nq an ns ar (qitems 12 qs qends) (ritems e1 rs rends) e1 e2 /\
-    lenN (qitems 12 qs qends) = nq /\ lenN (ritems e1 rs rends) = an + ns + ar).
+    lenN (qitems 12 qs qends) = nq /\ lenN (ritems e1 rs rends) = an + ns + ar /\
+    qstands msg 12 qs qends /\ rstands msg e1 rs rends).
 Check (C02_standing_record_decodes : forall msg p x e c,
   record_stands msg p x e -> whole msg c -> pos c = a_type_off (ritem p x e) + 10 ->
   exists m, read_rdata msg (sr_type x) (a_rdlen (ritem p x e)) = Some m /\
